@@ -61,6 +61,9 @@ def unquote : Quoted → Ident
     else lit c (unquote (a :: b :: r))
   | c :: t => lit c (unquote t)
 
+/-- `del d[k]` / `d.pop(k, None)` on a dict: no binding of `k` remains (bindings of other keys keep their order) -/
+def eraseKey {κ ν : Type} [DecidableEq κ] (k : κ) (l : List (κ × ν)) : List (κ × ν) := l.filter (fun p => p.1 ≠ k)
+
 /-! ### The server: CouchDB's MVCC rules for the document API subset (trusted specification) -/
 
 structure Doc where
@@ -378,9 +381,9 @@ def discardWith (fixed : Bool) (w : W) (h : Nat) (x : Obj) (q : Quoted) (rev : R
   | (w, .ok _) =>
     if !fixed && (AList.get q w.cl.revs).isNone then (w, .raise .keyError)     -- delete_couchdb_revision: del _revision_store[url]
     else if !fixed && (AList.get x.id w.cl.cache).isNone then                  -- del self._object_cache[x.id]
-      ({ w with cl := { w.cl with revs := AList.erase q w.cl.revs } }, .raise .keyError)
+      ({ w with cl := { w.cl with revs := eraseKey q w.cl.revs } }, .raise .keyError)
     else
-      (setObj { w with cl := { w.cl with revs := AList.erase q w.cl.revs, cache := AList.erase x.id w.cl.cache } } h
+      (setObj { w with cl := { w.cl with revs := eraseKey q w.cl.revs, cache := eraseKey x.id w.cl.cache } } h
          { x with source := none }, .unit)
   | (w, .serverError 404) => (w, .raise .keyError)
   | (w, .serverError 409) => (w, .raise .conflict)
@@ -445,7 +448,7 @@ def modify (w : W) (h : Nat) (d : Data) : W × Out :=
 
 /-- the application drops its last reference: the object dies, its weak cache entry disappears -/
 def drop (w : W) (h : Nat) : W × Out :=
-  ({ w with cl := { w.cl with objs := AList.erase h w.cl.objs, cache := w.cl.cache.filter (fun p => p.2 ≠ h) } }, .unit)
+  ({ w with cl := { w.cl with objs := eraseKey h w.cl.objs, cache := w.cl.cache.filter (fun p => p.2 ≠ h) } }, .unit)
 
 inductive COp where
   | mk (i : Ident) (d : Data) | modify (h : Nat) (d : Data) | drop (h : Nat)
